@@ -858,3 +858,25 @@ VERIF_HARNESS(h_cmp)
 //@harness h_cbelow_second param base=1,2 param k=2 param first=0..15 param deep=0 tier=quick loop=70 leak=1
 //@harness h_cmp param base=3,5 param k=0 tier=quick loop=70 leak=1
 //@harness h_cmp param base=1,2 param k=1 tier=quick loop=70 leak=1
+// ---- thorough tier (about 25 minutes on 6 cores)
+// two steps with the full checks at the end on the small bases, lockstep-only on the 6-node forest of the design sketch
+//@harness h_ops param base=0..2 param k=2 param first=0..15 param deep=1 if (base>0)|(first<3)|(first==6)|(first==7)|(first>9) tier=thorough loop=70 leak=1 paths=100000 wall=3000
+//@harness h_ops param base=3 param k=2 param first=0..16 param deep=0 tier=thorough loop=70 leak=1 paths=200000 wall=3000
+// three steps from a single node, basic operations / all operations; full checks after every step for k = 2
+//@harness h_ops param base=0 param k=3 param first=0..15 param deep=0 if (first<3)|(first==6)|(first==7)|(first>9) tier=thorough loop=70 leak=1 paths=200000 wall=3000
+//@harness h_all param base=0 param k=3 param first=0,1,2,6,7,10,11,12,13,14,15,17,18 param deep=0 tier=thorough loop=70 leak=1 paths=200000 wall=3000
+//@harness h_ops param base=1,2 param k=2 param first=0..15 param deep=2 tier=thorough loop=70 leak=1 paths=100000 wall=3000
+// four steps from a single node over the reduced operation set (push_back(v), push_front(tree&&), pop_front, release,
+// move/copy construction, swap, copy/move assignment)
+//@harness h_core param base=0 param k=4 param first=0,7,13,14,17,18 param deep=0 tier=thorough loop=70 leak=1 paths=400000 wall=3000
+// swap / assignments combined with one other operation on the 6-node forest, and all operations mixed on the small bases
+//@harness h_swap_first param base=3 param k=2 param first=17 param deep=0 tier=thorough loop=70 leak=1 paths=100000 wall=3000
+//@harness h_cassign_first param base=3 param k=2 param first=18 param deep=0 tier=thorough loop=70 leak=1 paths=100000 wall=3000
+//@harness h_massign_first param base=3 param k=2 param first=19 param deep=0 tier=thorough loop=70 leak=1 paths=100000 wall=3000
+//@harness h_cbelow_first param base=3 param k=2 param first=20 param deep=0 tier=thorough loop=70 leak=1 paths=100000 wall=3000
+//@harness h_swap_second param base=3 param k=2 param first=0..16 param deep=0 tier=thorough loop=70 leak=1 paths=100000 wall=3000
+//@harness h_cassign_second param base=3 param k=2 param first=0..16 param deep=0 tier=thorough loop=70 leak=1 paths=100000 wall=3000
+//@harness h_massign_second param base=3 param k=2 param first=0..16 param deep=0 tier=thorough loop=70 leak=1 paths=100000 wall=3000
+//@harness h_cbelow_second param base=3 param k=2 param first=0..16 param deep=0 tier=thorough loop=70 leak=1 paths=100000 wall=3000
+//@harness h_all param base=1,2 param k=2 param first=0..20 param deep=1 if (first!=16) tier=thorough loop=70 leak=1 paths=100000 wall=3000
+//@harness h_cmp param base=3,5 param k=1 tier=thorough loop=70 leak=1 paths=100000 wall=3000
